@@ -14,6 +14,10 @@ SCHEMES = {
               "ah": "sp ce/h  h.txt", "bg": "sp ce2/g g.txt", "x": "sh ared/pro to", "xf": "sh ared/pro to/a pi.txt", "yf": "do cs/read me.txt"},
     "utf": {"a": "ünï", "b": "lib", "af": "ünï/fé.txt", "ag": "ünï/g.txt", "bf": "lib/日本.txt", "bi": "lib/i.log",
             "ah": "ünï/h.txt", "bg": "lib/gß.txt", "x": "gemeinsam/prötö", "xf": "gemeinsam/prötö/äpi.txt", "yf": "dökümente/lies mich.txt"},
+    # names that begin like monorail's own output directory (`monorail-out`) or like another target
+    "outish": {"a": "monorail-out-x", "b": "monorail-outer", "af": "monorail-out-x/f.txt", "ag": "monorail-out-x/g.txt", "bf": "monorail-outer/f.txt",
+               "bi": "monorail-outer/i.log", "ah": "monorail-out-x/h.txt", "bg": "monorail-outer/g.txt", "x": "monorail-output/proto",
+               "xf": "monorail-output/proto/api.txt", "yf": "monorail-o/readme.txt"},
     "quote": {"a": "a", "b": "b", "af": "a/q\"uote.txt", "ag": "a/back\\slash.txt", "bf": "b/tab\tname.txt", "bi": "b/i.log",
               "ah": "a/h.txt", "bg": "b/g.txt", "x": "shared/proto", "xf": "shared/proto/a'pi.txt", "yf": "docs/read\"me.txt"},
 }
@@ -70,6 +74,7 @@ class RepoSim:
                 fx.add_cmd(t, "build", [{"op": "exit", "code": 0}], ext=".sh")
         fx.git_init()
         self.shas = [fx.head()]
+        self.tag_head()
         self.ncommits = 1
         cfg = runlib.cfg_abs(targets)
         self.events = [{"ev": "reset", "beh": beh, "paths": [{"id": i, "comp": runlib.P(self.id2path[i])} for i in ids],
@@ -100,9 +105,34 @@ class RepoSim:
     def cp_out(self, out):
         cp = (out or {}).get("checkpoint") or {}
         cid = cp.get("id", "")
-        idn = self.shas.index(cid) + 1 if cid in self.shas else -1
+        idn = self.rev_index(cid)
         pend = cp.get("pending") or {}
         return {"id": idn, "pending": sorted([[self.map_path(k), self.sum2c.get(v, -2)] for k, v in pend.items()])}
+
+    # ---- how a commit is named on the command line: its full id, an abbreviated id, or a tag (the tags of later commits
+    # extend the names of earlier ones: v1, v1.1, v1.1.1, ... -- every one a textual prefix of the next)
+    def tag_of(self, i):
+        return "v" + ".".join(["1"] * i)
+
+    def rev(self, i):
+        sha = self.shas[i - 1]
+        kind = (self.beh_index if isinstance(self.beh_index, int) else 0) % 3
+        if kind == 1:
+            return self.tag_of(i)
+        if kind == 2:
+            return sha[:12]
+        return sha
+
+    def rev_index(self, name):
+        if name in self.shas:
+            return self.shas.index(name) + 1
+        for i in range(1, len(self.shas) + 1):
+            if name == self.tag_of(i) or (len(name) >= 7 and self.shas[i - 1].startswith(name)):
+                return i
+        return -1
+
+    def tag_head(self):
+        self.fx.git("tag", self.tag_of(len(self.shas)))
 
     # ---- model actions on the real repository
     def act(self, a):
@@ -136,11 +166,12 @@ class RepoSim:
         elif k == "commit":
             fx.git("commit", "-q", "--allow-empty", "-m", "c%d" % len(self.shas))
             self.shas.append(fx.head())
+            self.tag_head()
             self.events.append({"ev": "commit"})
         elif k == "cp_update":
             args = ["checkpoint", "update"]
             if a["id"] != 0:
-                args += ["-i", self.shas[a["id"] - 1]]
+                args += ["-i", self.rev(a["id"])]
             if a["pending"]:
                 args.append("-p")
             r = fx.monorail(args)
@@ -184,9 +215,9 @@ class RepoSim:
     def analyze(self, begin=0, end=0):
         args = ["analyze", "--changes"]
         if begin:
-            args += ["--begin", self.shas[begin - 1]]
+            args += ["--begin", self.rev(begin)]
         if end:
-            args += ["--end", self.shas[end - 1]]
+            args += ["--end", self.rev(end)]
         r = self.fx.monorail(args)
         out = r["out"] or {}
         raw = [c.get("path", "") for c in (out.get("changes") or [])]
@@ -442,7 +473,7 @@ def run(pid, tier):
     if len(behs) < nb // 2:
         raise vlib.ToolError("too few simulated behaviours: %d" % len(behs))
     jobs = []
-    schemes = ["plain", "space", "utf"] + (["quote"] if tier == "thorough" else [])
+    schemes = ["plain", "space", "utf", "outish"] + (["quote"] if tier == "thorough" else [])
     for i, h in enumerate(behs):
         jobs.append((i, h, schemes[i % len(schemes)], ["af", "ag", "bf", "bi"], ["bi"]))
     nr = 12 if tier == "quick" else 200
